@@ -317,6 +317,7 @@ def format_value(it, val, spec, node=None):
             return lit(str(val.value))
     # decimal / datetime / unknown objects
     desc = f'format({val!r},{spec!r})'
+    it.event('format-obj', node, value=val, spec_type=d['type'], zero=bool(d['zero']))
     return opaque_fresh(it, 'str', desc, lo=width, deps=(val,), tags=value_tags(val))
 
 
@@ -417,6 +418,7 @@ def format_value_symw(it, val, pre, width, suf, node=None):
             fill, align = '0', '<'
         return pad(it, out, width, align or '<', fill or ' ')
     # decimal / datetime / opaque objects: at least `width` characters
+    it.event('format-obj', node, value=val, spec_type=d['type'], zero=bool(d['zero']))
     sym = it.fresh('len<format>')
     it.store.declare(sym, 0, None)
     it.store.assume_ge0(Lin.sym(sym) - width)
